@@ -1167,6 +1167,7 @@ package server
 //@ func (*Aof).clearRewriteAofFiles
 //@   requires self != nil
 //@   at call Remove assert C16.crash.rename-first: calls(Rename) == 2
+//@   at call Remove assert C16.clear.keeps-snapshot: implies(calls(Rename) >= 1, aofFilename != "rewrite.aof")
 //@   modifies all
 // the engine's answer is taken as given by the compaction (its own correctness is the subject of C01/C02/C06)
 // (the answer for a renewal record is decided on the hold the record's LockId owns, not on whatever hold is the key's oldest)
